@@ -18,6 +18,5 @@ for e in errs[:2]:
 for fn in funcs:
     if fn.startswith("+"):
         continue
-    for i in res[fn][:3]:
-        print("---", fn, i, json.dumps(cases[i])[:1500])
-        print("   model:", coqeval.model_output(engine, cases[i])[:1500])
+    for i in res[fn][:int(os.environ.get("SHOW", "1"))]:
+        print("---", fn, i, "tags", cases[i].get("tags"), json.dumps(cases[i])[:int(os.environ.get("WIDTH", "300"))])
